@@ -43,6 +43,12 @@ type compSess struct {
 	inCtx  context.Context // its context
 	search *aiCall         // its pending question to the searching player
 	torn   bool
+	pinned bool // the op line asks for the model of the tree before fixes/C07-stale-thinker.diff
+	// a call whose context was already cancelled on entry: after the fix it returns at once, without effects
+	inStale     bool
+	inSent      int
+	inNotes     string
+	staleEffect bool // such a call did something (command sent, rule notes changed, searcher asked, move returned, panic)
 }
 
 type compClient struct{ *botSess }
@@ -92,13 +98,13 @@ func compReset(s *Session) {
 	delete(s.slots, "cbot")
 }
 
-func compStart(kind, arg, colour string, size, secs int, gameNo string) *compSess {
+func compStart(kind, arg, colour string, size, secs int, gameNo string, pinned bool) *compSess {
 	botOnce.Do(func() {
 		log.SetOutput(io.Discard)
 		bot.VerifSetAfter(botTimerHook)
 	})
 	b := &botSess{colour: colour, gameStr: "Game#" + gameNo, lines: make(chan string), done: make(chan struct{})}
-	cs := &compSess{b: b, chk: [3]int64{0, 3, 0}}
+	cs := &compSess{b: b, chk: [3]int64{0, 3, 0}, pinned: pinned}
 	if kind == "F" {
 		cs.c = fpa.VerifNewComposeFriendly(arg, compClient{b})
 	} else {
@@ -114,12 +120,16 @@ func compStart(kind, arg, colour string, size, secs int, gameNo string) *compSes
 		}
 		cs.calls++
 		cs.inP, cs.inCtx = p, ctx
+		cs.inStale, cs.inSent, cs.inNotes = ctx.Err() != nil, len(b.sent), cs.c.VerifRuleNotes()
 		return []fpa.VerifChk{{V: cs.chk[0], Depth: int(cs.chk[1])}, {V: cs.chk[2]}}, true
 	}
 	cs.c.Search = func(ctx context.Context, p *tak.Position) tak.Move {
 		q := &aiCall{p: p, ctx: ctx, gate: make(chan tak.Move)}
 		b.mu.Lock()
 		cs.search = q
+		if cs.inStale {
+			cs.staleEffect = true
+		}
 		b.mu.Unlock()
 		mv := <-q.gate
 		b.mu.Lock()
@@ -130,9 +140,11 @@ func compStart(kind, arg, colour string, size, secs int, gameNo string) *compSes
 	cs.c.Left = func(m tak.Move, panicked bool) {
 		b.mu.Lock()
 		cs.inP, cs.inCtx = nil, nil
+		if cs.inStale && !cs.torn && (panicked || len(b.sent) != cs.inSent || cs.c.VerifRuleNotes() != cs.inNotes || m != (tak.Move{})) {
+			cs.staleEffect = true
+		}
 		if panicked && !cs.torn {
 			cs.dead = true
-			cs.calls-- // the model counts the calls that got past their reads of the record
 		}
 		b.mu.Unlock()
 	}
@@ -172,15 +184,20 @@ func compStart(kind, arg, colour string, size, secs int, gameNo string) *compSes
 
 func (cs *compSess) status() string {
 	cs.b.mu.Lock()
-	d := cs.dead
+	d, st := cs.dead, cs.staleEffect && !cs.pinned
 	cs.b.mu.Unlock()
+	pre := ""
+	if st {
+		// never printed by the model: GetMove ran, with effects, for a thinker whose invocation was over
+		pre = "stale-"
+	}
 	if cs.b.hung {
 		return "hang"
 	}
 	if d {
-		return "tpanic"
+		return pre + "tpanic"
 	}
-	return cs.b.status()
+	return pre + cs.b.status()
 }
 
 // wire: the commands sent for this game, in order - moves, RequestUndo, Resign, and the Tell of a resignation
@@ -276,7 +293,13 @@ func init() {
 		if len(a) < 6 || (a[0] != "F" && a[0] != "T") {
 			return "bad-op"
 		}
-		cs := compStart(a[0], a[1], a[2], atoi(a[3]), atoi(a[4]), a[5])
+		pinned := false
+		for _, x := range a[6:] {
+			if x == "v=pinned" {
+				pinned = true
+			}
+		}
+		cs := compStart(a[0], a[1], a[2], atoi(a[3]), atoi(a[4]), a[5], pinned)
 		cs.b.game = cs.c.G
 		s.slots["cbot"] = cs
 		compLive.Store(s, cs)
